@@ -832,3 +832,11 @@ pub fn all3(vs: impl IntoIterator<Item = Tv>) -> Tv {
     }
     r
 }
+
+/// evaluates a closed formula given in internal form (used by the TPTP reader)
+pub fn eval_ir(f: &F, sorts: Vec<Sort>, h: &Interp, t: &Interp, consts: &Consts, w: World) -> (Tv, EvalStats) {
+    let ctx = Ctx::new(h, t, consts, sorts.clone(), f);
+    let env: Env = vec![None; sorts.len()];
+    let r = ctx.eval(f, &env, w);
+    (r, EvalStats { incomplete_quants: ctx.incomplete_quants.get(), budget_exhausted: ctx.budget.get() < 0 })
+}
